@@ -291,6 +291,8 @@ REFSETS = [
     ("one-by-id", [plain(1, name=False)], [rid(1)]),
     ("two", [plain(1), plain(2)], ["rule1", "rule2"]),
     ("two-rev", [plain(1), plain(2)], ["rule2", "rule1"]),
+    ("by-id-with-name", [plain(1), plain(2)], [rid(1), "rule2"]),
+    ("multi-cond-by-id-with-name", [plain(1, two=True)], [rid(1)]),
     ("multi-cond", [plain(1, two=True), plain(2)], ["rule1", "rule2"]),
     ("three-mixed", [plain(1), plain(2, two=True), plain(3, name=False)], ["rule2", rid(3), "rule1"]),
     ("four", [plain(1), plain(2), plain(3), plain(4, two=True)], ["rule1", "rule2", "rule3", "rule4"]),
